@@ -138,7 +138,8 @@ theorem within2_timeTail_null (cfg : Cfg) (dest dmax : Nat) (db : Bos) (s : St) 
     (hw : ∀ a, Cells dest dmax a → W a) : Within2 R W (timeTail cfg dest dmax db 0) s := by
   unfold timeTail
   dsimp only
-  rw [if_pos rfl]
+  rw [if_pos (Or.inl rfl), if_neg (fun h => h.1 rfl)]
+  show Within2 R W (do (if cfg.slack = true then memsetP 0 dmax dest else store dest 0); pure NEG1 : Prog Nat) s
   refine Acc.within2 (Q := fun _ => True) (Acc.bind (Q := fun _ => True) ?_ (fun _ _ => Acc.pure _ trivial)) s
   split
   · exact Acc_memsetP' 0 dmax dest hw
@@ -262,7 +263,7 @@ theorem within2_timeTail_big (cfg : Cfg) (dest dmax : Nat) (db : Bos) (text n : 
   refine AccS.within2 (Q := fun _ _ => True) ?_ s rfl
   unfold timeTail
   dsimp only
-  rw [if_neg ht, if_pos (show dmax ≥ 120 from h120)]
+  rw [if_neg (by simp [ht]), if_pos (show dmax ≥ 120 from h120)]
   unfold Disjoint at hdisj
   refine AccS.bind (AccS_copyText n 120 text dest s.data hn hnz hnul (by omega)
     (fun j hj => Or.inr ⟨by omega, by omega⟩) (fun j hj => ⟨by omega, by omega⟩)) (fun _ d' ⟨p1, _⟩ => ?_)
